@@ -189,11 +189,30 @@ fn run_damage(plan: &Value, rec: &mut Rec) {
     let lowlevel = jbool(plan, "lowlevel");
     let opener = if jbool(plan, "password") { Opener::Password("hunter2".into()) } else { Opener::SessionKey(sk.clone().expect("session key")) };
     let max = payload.len() + 4096;
+    // default-mode SEIPDv1 with an explicit size limit placed exactly on / next to the size of the
+    // encrypted data (prefix + data + MDC = body minus the version octet)
+    let v1_limit: Option<usize> = if !v2 && !streaming && !jbool(plan, "password") {
+        // the limit is compared with what follows the (block size + 2)-octet prefix
+        let bs = workload::sym(jstr(&cfg["enc"], "sym")).block_size();
+        let after_prefix = (pk.body.len() - 1).saturating_sub(bs + 2);
+        match ju64(plan, "pick") % 6 {
+            0 => Some(after_prefix),
+            1 => Some(after_prefix + 1),
+            2 => Some(pk.body.len() - 1),
+            3 => Some(pk.body.len() + 7),
+            _ => None,
+        }
+    } else {
+        None
+    };
+    if v1_limit.is_some() {
+        rec.count("probe:seipdv1-explicit-size-limit");
+    }
 
     // the undamaged message must read cleanly (else nothing can be learned)
     let read = |s: Arc<Vec<u8>>| {
         let (input, _l) = seams::sim_bufread(s, Sched::Full, 8192, vec![]);
-        let spec = ReadSpec { armor: false, opener: opener.clone(), consumer: &consumer, verifiers: vec![], max, streaming_v1: streaming };
+        let spec = ReadSpec { armor: false, opener: opener.clone(), consumer: &consumer, verifiers: vec![], max, streaming_v1: streaming, v1_limit };
         guard(|| workload::read_message(input, &spec))
     };
     match read(Arc::new(stream.clone())) {
